@@ -140,6 +140,9 @@ def run(ctx):
                      domain=dom)
     if not tz_mode():
         SC.math_of_int_lane(ctx, ctx.rng("mathint"), select, findings.django_semantic_triggers, extra_case=case_extra, profile=p)
+        SC.bracket_string_lane(ctx, ctx.rng("brackets"), select, findings.django_semantic_triggers, extra_case=case_extra, profile=p)
+        SC.grouping_grid_lane(ctx, ctx.rng("grid"), select, findings.django_semantic_triggers, extra_case=case_extra, profile=p)
+        SC.spelling_twin_lane(ctx, ctx.rng("twin"), select, findings.django_semantic_triggers, extra_case=case_extra, profile=p)
         SC.big_list_lane(ctx, ctx.rng("biglist"), select, findings.django_semantic_triggers,
                          ctx.pick(6, 60), profile=p)
         SC.machine_lane(ctx, ctx.rng("machine"), select, findings.django_semantic_triggers,
